@@ -43,6 +43,7 @@ def plan(tier, seed):
 
 def setup_worker(ctx):
     common.setup(ctx, ANCHORS)
+    common.ELSEWHERE["one_in"] = 60      # one document in sixty is built by another interpreter process and arrives by pickle
 
 
 def finish_worker(ctx):
